@@ -98,6 +98,37 @@ def is_class_body_comprehension_leak(unit, pytd):
   return walk(unit.classes)
 
 
+_LIT_RE = None
+
+
+def is_literal_bool_int_collapse(text):
+  """Known finding c05-literal-bool-int-collapse: the stub has a Literal[...] listing a bool and the equal int
+  (True with 1, False with 0) — and nothing else is wrong: with the smaller member of each such pair removed from
+  that Literal, the text must satisfy the property (so any other failure in the same stub is still reported)."""
+  global _LIT_RE
+  import re  # pylint: disable=import-outside-toplevel
+  if _LIT_RE is None:
+    _LIT_RE = re.compile(r"Literal\[([^\[\]]*)\]")
+  hit = [False]
+
+  def fix(m):
+    items = [x.strip() for x in m.group(1).split(",")]
+    out, seen = [], []
+    for it in items:
+      key = {"True": 1, "False": 0, "1": 1, "0": 0}.get(it)
+      if key is not None and key in seen:
+        hit[0] = True
+        continue
+      if key is not None:
+        seen.append(key)
+      out.append(it)
+    return "Literal[%s]" % ", ".join(out)
+  fixed_text = _LIT_RE.sub(fix, text)
+  if not hit[0]:
+    return False
+  return oracle_text(fixed_text) is None
+
+
 def has_property_method(unit, pytd):
   """A Function of kind PROPERTY (known finding c05-property-decorator-duplicated): pytype never emits it."""
   def walk(cs):
@@ -271,7 +302,7 @@ def _worker_programs(args):
     # characterised known findings is reported as a disagreement so that S runs)
     bad = oracle_text(text.rstrip("\n") if text.endswith("\n") else text, mods)
     if bad is not None:
-      if is_class_body_comprehension_leak(ret.ast, pytd):
+      if is_class_body_comprehension_leak(ret.ast, pytd) or is_literal_bool_int_collapse(text.rstrip("\n")):
         stats["known-finding-region"] += 1
       else:
         stats["emitted-stub-violates-property"] += 1
@@ -384,8 +415,23 @@ def correspond(res, rng, tier):
 def witnesses(res):
   mods = _pytype()
   config, io, parser, pytd, pytd_utils, visitors = mods
-  known, _ = common.known_findings("C05")
+  known, fixed = common.known_findings("C05")
   replayed = []
+  for e in fixed:
+    w = e["witness"]
+    # the repaired defect: printing a unit must not change what it compares equal to
+    opts = parser.PyiOptions(python_version=PY_VERSION)
+    a1 = parser.parse_string(w["pyi"], options=opts)
+    a2 = parser.parse_string(w["pyi"], options=opts)
+    pytd_utils.Print(a1)
+    bad = None
+    if not pytd_utils.ASTeq(a1, a2):
+      bad = "a printed unit no longer equals an identical freshly parsed one (lookup cache takes part in ==)"
+    bad = bad or oracle_text(w["pyi"].rstrip("\n"), mods)
+    replayed.append({"id": e["id"], "fixed": True, "still_fails": bad is not None, "what": bad})
+    if bad is not None:
+      res.violation("fixed-" + e["id"], {"property": "C05", "kind": "fixed-witness-fails-again", "id": e["id"],
+                                         "input": w, "what": bad})
   for k in known:
     w = k["witness"]
     if "py" in w:
@@ -484,7 +530,7 @@ def search(res, rng, disagreements, pfail):
         ret, text = io.generate_pyi(src, config.Options.create(python_version=PY_VERSION))
       except Exception:  # pylint: disable=broad-except
         continue
-      if is_class_body_comprehension_leak(ret.ast, pytd):
+      if is_class_body_comprehension_leak(ret.ast, pytd) or is_literal_bool_int_collapse(text.rstrip("\n")):
         continue
       bad = oracle_text(text.rstrip("\n"), mods)
       if bad is not None:
@@ -495,7 +541,7 @@ def search(res, rng, disagreements, pfail):
             r, t = io.generate_pyi("\n".join(ls), config.Options.create(python_version=PY_VERSION))
           except Exception:  # pylint: disable=broad-except
             return False
-          if is_class_body_comprehension_leak(r.ast, pytd):
+          if is_class_body_comprehension_leak(r.ast, pytd) or is_literal_bool_int_collapse(t.rstrip("\n")):
             return False
           return oracle_text(t.rstrip("\n"), mods) is not None
         small = common.ddmin(lines, fails, 40)
@@ -547,7 +593,7 @@ def search(res, rng, disagreements, pfail):
       ret, text = io.generate_pyi(src, config.Options.create(python_version=PY_VERSION))
     except Exception:  # pylint: disable=broad-except
       continue
-    if is_class_body_comprehension_leak(ret.ast, pytd):
+    if is_class_body_comprehension_leak(ret.ast, pytd) or is_literal_bool_int_collapse(text.rstrip("\n")):
       continue
     bad = oracle_text(text.rstrip("\n"), mods)
     if bad is not None:
